@@ -19,11 +19,16 @@ import (
 var c10Eps = []string{"e1", "e10", "e1-x", "E1"}
 
 func drawClaims(c *vlib.Case) []string {
-	switch c.Pick("claimShape", 5) {
+	switch c.Pick("claimShape", 6) {
 	case 0:
 		return nil // any endpoint
 	case 1:
 		return []string{c10Eps[c.Pick("only", len(c10Eps))]}
+	case 2:
+		// a list that is not empty but names nothing usable (a token service that
+		// templated the list from an unset variable): confined to nothing, not to everything
+		c.Class("blank-endpoint-claims")
+		return [][]string{{""}, {"", ""}, {" "}, {"", "other"}}[c.Pick("blank", 4)]
 	default:
 		var out []string
 		for _, e := range append(append([]string{}, c10Eps...), "e", "e1.piko", "e1 ") {
@@ -51,7 +56,7 @@ func permitted(claims []string, ep string) bool {
 }
 
 func TestC10Endpoints(t *testing.T) {
-	vlib.SetRule("C10", "TestC10Endpoints", "real 2-node cluster with HMAC auth on the proxy and upstream ports; stamping upstreams of the 4 near-miss endpoints e1/e10/e1-x/E1 on drawn nodes (connected with permitted tokens); tokens with drawn endpoint claim sets (none, one, several incl. near misses); the target is named by Host label, x-piko-endpoint header, conflicting header+Host, the TCP route path, or the upstream listen path, entering at either node (so the check also crosses a forward); oracle: accepted iff the endpoint routing uses (header > first Host label; path parameter) is in the claim list or the list is empty, an accepted request is served by an upstream of exactly that endpoint, a refused one is answered 401 and reaches no upstream; non-trivial = conflicting Host/header or a near-miss claim")
+	vlib.SetRule("C10", "TestC10Endpoints", "real 2-node cluster with HMAC auth on the proxy and upstream ports; stamping upstreams of the 4 near-miss endpoints e1/e10/e1-x/E1 on drawn nodes (connected with permitted tokens); tokens with drawn endpoint claim sets (none, one, several incl. near misses, lists of blank entries); the target is named by Host label, x-piko-endpoint header, conflicting header+Host, the TCP route path, or the upstream listen path, entering at either node (so the check also crosses a forward); oracle: accepted iff the endpoint routing uses (header > first Host label; path parameter) is in the claim list or the list is empty, an accepted request is served by an upstream of exactly that endpoint, a refused one is answered 401 and reaches no upstream; non-trivial = conflicting Host/header or a near-miss claim")
 	vlib.Run(t, "C10", func(c *vlib.Case) {
 		k := TestKeys()
 		cl, err := StartCluster(2, false, func(i int, conf *config.Config) {
